@@ -90,13 +90,13 @@ prop("C02", ["PepitVerif/Props/C02.lean", "PepitVerif/Props/C13.lean"], only=[r"
      assumptions=["eigendecomposition/QR accuracy and feasibility up to solver tolerance are floating-point facts: monitored numerically, not proved"])
 
 prop("C03", ["PepitVerif/Props/C03.lean", "PepitVerif/Props/C03LMI.lean", "PepitVerif/Props/C03Quad.lean", "PepitVerif/Math/ClassForms.lean", "PepitVerif/Math/Convex.lean"],
-     streams=[stream("cls (class constraints of all 24 classes: names, senses, decompositions, LMIs)", "cls", 200, 4000),
+     streams=[stream("cls (class constraints of all 24 classes: names, senses, decompositions, LMIs)", "cls", 600, 4000),
               stream("collect (class constraints as generated at solve time: partitions, composites, block-smooth functions sampled through multiples)", "collect", 100, 2000, env={"PEPV_TEE": "1", "STUBS": "1"}, offset=151)],
      direct=[oracle("c03_members", 260, 2600)],
      trusted=["class membership predicates in first-order form (the equivalence with 'gradient is L-Lipschitz' is textbook and not re-proved)"])
 
 prop("C04", ["PepitVerif/Props/C04.lean", "PepitVerif/Props/C04Suff.lean", "PepitVerif/Math/PairsSem.lean", "PepitVerif/Math/ClassForms.lean"],
-     streams=[stream("cls (glue: which lists, skip rule, symmetry, tables) on random interleavings", "cls", 200, 4000, offset=11),
+     streams=[stream("cls (glue: which lists, skip rule, symmetry, tables) on random interleavings", "cls", 600, 4000, offset=11),
               stream("collect (class constraints of every leaf function reach the solver, also for functions sampled once)", "collect", 100, 2000, env={"PEPV_TEE": "1", "STUBS": "1"}, offset=113)],
      direct=[oracle("c04_orders", 30, 400), oracle("c04_counts", 120, 2000)],
      trusted=["hand transcription of the documented conditions (Canon.*)"],
